@@ -449,6 +449,9 @@ pub struct SimRing {
     pub issued_fds: Vec<i32>,
     pub next_seq: u64,
     pub enters: u64,
+    /// SQPOLL: the kernel thread went idle (IORING_SQ_NEED_WAKEUP is set in the SQ flags word);
+    /// it only runs again when an `io_uring_enter` carries IORING_ENTER_SQ_WAKEUP.
+    pub sqpoll_asleep: bool,
 }
 
 unsafe impl Send for SimRing {}
@@ -1170,6 +1173,7 @@ fn sim_setup(entries: u32, p: *mut Params) -> i64 {
         issued_fds: Vec::new(),
         next_seq: 1,
         enters: 0,
+        sqpoll_asleep: false,
     };
     with_sim(|s| {
         s.rings.insert(fd, ring);
@@ -1374,6 +1378,15 @@ impl SimRing {
     }
     pub fn set_sq_flags(&self, v: u32) {
         unsafe { w32(self.sq_ring, SQ_FLAGS, v) }
+    }
+    /// SQPOLL: the kernel thread goes idle if nothing is pending (sets IORING_SQ_NEED_WAKEUP).
+    pub fn sqpoll_sleep(&mut self) -> bool {
+        if self.flags & SETUP_SQPOLL == 0 || self.sq_pending() != 0 || self.sqpoll_asleep {
+            return false;
+        }
+        self.sqpoll_asleep = true;
+        self.set_sq_flags(1);
+        true
     }
     pub fn sqe_at(&self, index: u32) -> Sqe {
         unsafe { *self.sqes.add((index & (self.sq_entries - 1)) as usize) }
@@ -1931,6 +1944,12 @@ fn sim_enter(fd: i32, to_submit: u32, min_complete: u32, flags: u32, arg: usize)
             let mut n = to_submit.min(ring.sq_pending());
             if ring.flags & SETUP_SQPOLL != 0 {
                 n = 0;
+                if ring.sqpoll_asleep && flags & ENTER_SQ_WAKEUP != 0 {
+                    // the woken kernel thread runs at once and takes everything published
+                    ring.sqpoll_asleep = false;
+                    ring.set_sq_flags(0);
+                    n = ring.sq_pending();
+                }
             }
             if let Some(m) = script.max_consume {
                 n = n.min(m);
